@@ -2,4 +2,3 @@ package main
 
 func c1ModelOps(c *Cfg, r *Rng) {}
 
-func c1Minimise(src string, r *Rng) {}
